@@ -21,7 +21,7 @@ RULE = ('assembly: the three G-ASM families of C05 (random multi-label programs,
 def asm_case(items, scratch, style=0):
     text = asmgen.render(items, style)
     sp = os.path.join(scratch, 'p.S')
-    open(sp, 'w').write(text)
+    open(sp, 'w', encoding='latin-1').write(text)
     hexasm = toolchain.tool('hexasm')
     r1 = subprocess.run([hexasm, sp, '--instrs'], stdout=subprocess.PIPE, stderr=subprocess.PIPE, cwd=scratch, timeout=20)
     outp = os.path.join(scratch, 'p.bin')
@@ -45,7 +45,7 @@ def asm_case(items, scratch, style=0):
 
 def x_case(src, scratch):
     sp = os.path.join(scratch, 'p.x')
-    open(sp, 'w').write(src)
+    open(sp, 'w', encoding='latin-1').write(src)
     xcmp = toolchain.tool('xcmp')
     r1 = subprocess.run([xcmp, sp, '-S'], stdout=subprocess.PIPE, stderr=subprocess.PIPE, cwd=scratch, timeout=30)
     outp = os.path.join(scratch, 'p.bin')
